@@ -285,3 +285,222 @@ class SolveTScripted(BoundedCheck):
             if not (a == exp['X'] or (math.isnan(a) and math.isnan(exp['X']))) and not region:
                 bad('stored value after the last pass', 'solve_t.value', exp['X'], a, 'value')
         return out
+
+
+# ---------------------------------------------------------------------------------------------------------------------
+# C05: solve() against the ordered sequence of single-period solves, with a fault injected at every period in turn
+# ---------------------------------------------------------------------------------------------------------------------
+SPAN6 = 6
+SPAN_KINDS = ('range', 'strings', 'pandas-index', 'period-index')
+FAULTS = ('none', 'nan', 'exc', 'nonconv')
+
+
+def make_span(kind):
+    if kind == 'range':
+        return list(range(2000, 2000 + SPAN6))
+    if kind == 'strings':
+        return [f'p{i}' for i in range(SPAN6)]
+    import pandas as pd
+    if kind == 'pandas-index':
+        return pd.Index(list(range(2000, 2000 + SPAN6)))
+    return pd.period_range(start='2000Q1', periods=SPAN6, freq='Q')
+
+
+def make_period_scripted_class():
+    import fsic
+
+    class PeriodScripted(fsic.BaseModel):
+        ENDOGENOUS = ['X', 'Y']
+        EXOGENOUS = ['Z']
+        NAMES = ENDOGENOUS + EXOGENOUS
+        CHECK = ['X', 'Y']
+        LAGS = 1
+        LEADS = 1
+        fault = ('none', -1)
+        log = None
+
+        def _evaluate(self, t, *, errors='raise', catch_first_error=True, iteration=None, **kwargs):
+            self.log.append((int(t), iteration))
+            kind, at = self.fault
+            self._Y[t] = 1.0
+            if t != at or kind == 'none':
+                self._X[t] = 10.0 + t          # converges at the second pass (first if the value is already there)
+            elif kind == 'nan':
+                self._X[t] = float('nan')
+            elif kind == 'exc':
+                raise ZeroDivisionError('scripted')
+            else:
+                self._X[t] = float(iteration % 2)    # never converges
+
+    return PeriodScripted
+
+
+class SolveVsLoop(BoundedCheck):
+    """Twin models: one runs solve(start, end, options), the other the per-period loop the property describes; everything observable
+    must agree (values, statuses and iteration counts of every period, returned triple, exception class and message)."""
+    name = 'c05.solve-vs-loop'
+    props = ('C05',)
+    bound_quick = ('scripted two-check-variable model with LAGS=LEADS=1 over a 6-period span of 4 span types (list of ints, list of str, pandas Index, '
+                   'quarterly PeriodIndex); start/end in {default, every label, unknown label, (PeriodIndex) a year label covering several periods}; '
+                   'fault in {none, NaN, exception, non-convergence} at every period position in turn; errors in raise/skip/ignore/replace; failures '
+                   'raise/ignore; model fresh or carrying an earlier complete solution; empty span; quick = 4000 seeded samples of that grid')
+    bound_thorough = 'the same grid enumerated completely (about 80000 cases)'
+    required_covers = ('returned', 'raised-by-period', 'KeyError', 'empty-span', 'zero-periods', 'presolved', 'later-period-after-failure')
+
+    def grid(self):
+        for kind in SPAN_KINDS:
+            labels = ['default'] + list(range(SPAN6)) + ['unknown'] + (['year'] if kind == 'period-index' else [])
+            for s in labels:
+                for e_ in labels:
+                    for fk in FAULTS:
+                        for at in (range(SPAN6) if fk != 'none' else [-1]):
+                            for errors in ('raise', 'skip', 'ignore', 'replace'):
+                                for failures in ('raise', 'ignore'):
+                                    for pres in (False, True):
+                                        yield dict(span=kind, start=s, end=e_, fault=[fk, at], errors=errors, failures=failures, presolved=pres)
+
+    def cases(self, tier, seed):
+        yield dict(span='empty', start='default', end='default', fault=['none', -1], errors='raise', failures='raise', presolved=False)
+        if tier == 'thorough':
+            yield from self.grid()
+            return
+        rnd = random.Random(seed * 104729 + 5)
+        for _ in range(4000):
+            kind = rnd.choice(SPAN_KINDS)
+            labels = ['default'] * 3 + list(range(SPAN6)) + ['unknown'] + (['year'] if kind == 'period-index' else [])
+            fk = rnd.choice(FAULTS)
+            yield dict(span=kind, start=rnd.choice(labels), end=rnd.choice(labels), fault=[fk, rnd.randrange(SPAN6) if fk != 'none' else -1],
+                       errors=rnd.choice(['raise', 'skip', 'ignore', 'replace']), failures=rnd.choice(['raise', 'ignore']), presolved=rnd.random() < 0.5)
+
+    @staticmethod
+    def _label(span, kind, which):
+        if which == 'default':
+            return None
+        if which == 'unknown':
+            return 'nosuch' if kind == 'strings' else (1990 if kind != 'period-index' else '1990Q1')
+        if which == 'year':
+            return '2000'
+        return span[which]
+
+    def check(self, case, res: BoundedResult):
+        from fsic.exceptions import SolutionError
+        cls = make_period_scripted_class()
+        out = []
+        key = json_key(case)
+        res.nontrivial.add(key)
+
+        def bad(clause, sig, expected, observed):
+            out.append(Violation(clause, sig, case, expected, observed, 'solve'))
+
+        if case['span'] == 'empty':
+            res.cover('empty-span')
+            try:
+                m = cls([])
+                m.log = []
+                m.solve()
+                bad('an empty span raises SolutionError', 'solve.empty-span', 'SolutionError', 'returned')
+            except SolutionError:
+                pass
+            except Exception as ex:  # noqa: BLE001
+                bad('an empty span raises SolutionError', 'solve.empty-span', 'SolutionError', type(ex).__name__)
+            return out
+
+        kind = case['span']
+        span = make_span(kind)
+        opts = dict(max_iter=4, errors=case['errors'], failures=case['failures'])
+
+        def fresh():
+            m = cls(span, X=0.0, Y=0.0, Z=7.0)
+            m.log = []
+            m.fault = ('none', -1)
+            if case['presolved']:
+                with warnings.catch_warnings():
+                    warnings.simplefilter('ignore')
+                    for p in range(SPAN6):
+                        try:
+                            m.solve_t(p, max_iter=7, failures='ignore', errors='ignore')
+                        except Exception:  # noqa: BLE001
+                            pass
+                m.iterations[:] = [11, 12, 13, 14, 15, 16]
+                m.X[:] = [100.0 + i for i in range(SPAN6)]
+                m.log = []
+            m.fault = tuple(case['fault'])
+            return m
+
+        a, b = fresh(), fresh()
+        start, end = self._label(span, kind, case['start']), self._label(span, kind, case['end'])
+        kw = {}
+        if start is not None:
+            kw['start'] = start
+        if end is not None:
+            kw['end'] = end
+
+        # reference: the statement's reading - positions of the labels (defaults: first period with enough lags, last with enough leads), then
+        # the single-period solver on each position in turn with the same options
+        def position(label, default):
+            if label is None:
+                return default
+            hits = [i for i, x in enumerate(span) if x == label or (kind == 'period-index' and str(x) == str(label))]
+            return hits[0] if len(hits) == 1 else None
+        ps, pe = position(start, 1), position(end, SPAN6 - 2)
+        ref_exc, ref_triple = None, ([], [], [])
+        with warnings.catch_warnings():
+            warnings.simplefilter('ignore')
+            if ps is None or pe is None:
+                ref_exc = KeyError('label')
+            else:
+                for p in range(ps, pe + 1):
+                    try:
+                        flag = b.solve_t(p, **opts)
+                    except Exception as ex:  # noqa: BLE001
+                        ref_exc = ex
+                        break
+                    ref_triple[0].append(span[p])
+                    ref_triple[1].append(p)
+                    ref_triple[2].append(flag)
+            got_exc, got = None, None
+            try:
+                got = a.solve(**kw, **opts)
+            except Exception as ex:  # noqa: BLE001
+                got_exc = ex
+        if case['presolved']:
+            res.cover('presolved')
+        if ref_exc is None:
+            res.cover('returned' if ref_triple[1] else 'zero-periods')
+        elif isinstance(ref_exc, KeyError) and (ps is None or pe is None):
+            res.cover('KeyError')
+        else:
+            res.cover('raised-by-period')
+            if b.log and b.log[-1][0] < (pe if pe is not None else -1):
+                res.cover('later-period-after-failure')
+        en = lambda x: type(x).__name__ if x is not None else None   # noqa: E731
+        if en(got_exc) != en(ref_exc):
+            bad('solve() raises exactly when, and what, the per-period loop raises (KeyError for a label without a single position)',
+                f'solve.exception:{en(ref_exc)}->{en(got_exc)}', en(ref_exc), f'{en(got_exc)}: {got_exc}')
+        elif got_exc is not None and not (ps is None or pe is None) and str(got_exc) != str(ref_exc):
+            bad('the exception of the failing period propagates unchanged', 'solve.exception-message', str(ref_exc), str(got_exc))
+        if got_exc is None and ref_exc is None:
+            ok = isinstance(got, tuple) and len(got) == 3
+            if ok:
+                labels, indexes, solved = got
+                ok = [str(x) for x in labels] == [str(x) for x in ref_triple[0]] and list(indexes) == ref_triple[1] and list(solved) == ref_triple[2] \
+                    and all(isinstance(i, int) for i in indexes) and all(isinstance(f, bool) for f in solved)
+            if not ok:
+                bad('returned (labels, positions, solved flags) equal the per-period calls', 'solve.triple', [str(x) for x in ref_triple[0]] + ref_triple[1] + ref_triple[2], str(got)[:300])
+        if a.log != b.log:
+            bad('solve() visits exactly the periods from start to end, in span order, each as the single-period solver does', 'solve.visits',
+                sorted({t for t, _ in b.log}), sorted({t for t, _ in a.log}))
+        for k in ('X', 'Y', 'Z', 'status', 'iterations'):
+            va, vb = a[k], b[k]
+            for i in range(SPAN6):
+                x, y = va[i], vb[i]
+                if not (x == y or (isinstance(x, float) and math.isnan(x) and math.isnan(y))):
+                    bad('the effect of solve() on the model is that of the per-period loop (earlier periods kept, failing period per policy, later periods untouched)',
+                        f'solve.state:{k}', f'{k}[{i}]={y}', f'{k}[{i}]={x}')
+                    break
+        return out
+
+
+def json_key(case):
+    import json
+    return json.dumps(case, sort_keys=True, default=str)
